@@ -6,7 +6,7 @@ from vlib import *
 CREDS_ACTIONS = ("ParseDoc", "SyntaxError", "NotArray", "RefuseNotString", "RefuseEmptyUser", "RefuseEmptyPass",
                  "TakeEntry", "BuildRegistry", "Export")
 START_ACTIONS = ("ParseSettingsFail", "ParseSettingsOk", "ParseHostsFail", "ParseHostsOk", "ValidateRpFail",
-                 "ValidateProtoFail", "ValidateCredsFail", "ValidateSettingsOk", "ValidateHostsFail", "ValidateHostsOk")
+                 "ValidateProtoFail", "ValidateCredsFail", "ValidateSettingsOk", "ValidateListFail", "ValidateListOk", "ValidateHostsOk")
 
 
 def repo_dir():
@@ -151,6 +151,13 @@ def run(ctx):
         raise ToolError("the harness did not execute every vector TLC generated")
     if cnt.get("rows_start", 0) == 0 or cnt.get("creds_loaded", 0) == 0:
         raise ToolError("vacuous run: nothing was ever accepted")
+    n_hosts = count_tagged(start["out"], "HOSTS")
+    for path in ("builder", "reload"):
+        got = cnt.get("hosts_%s_accept" % path, 0) + cnt.get("hosts_%s_refuse" % path, 0)
+        if got != n_hosts or n_hosts == 0 or cnt.get("hosts_%s_accept" % path, 0) == 0:
+            raise ToolError("hosts files through the %s: %d of %d executed, %d accepted" % (path, got, n_hosts, cnt.get("hosts_%s_accept" % path, 0)))
+    if cnt.get("exports_refused_probes", 0) == 0 or cnt.get("creds_files_case", 0) == 0 or cnt.get("builder_rows_start", 0) == 0:
+        raise ToolError("vacuous run: no export request for an unconfigured name / no case-twin file / no settings built")
     if ctx.thorough and (cnt.get("wizard_runs", 0) == 0 or cnt.get("endpoint_exports", 0) == 0) and not r["violations"]:
         raise ToolError("the wizard / endpoint binaries were never exercised")
     accepted, by_kind, ts = validate_trace(ctx, os.path.join(ctx.work, "c13.result.json.trace.ndjson"))
@@ -161,13 +168,16 @@ def run(ctx):
     trans = creds["states"] + start["states"] + ts["states"]
     return ctx.finish("model_checking", {
         "states": states, "transitions": trans,
-        "traces_validated_against_impl": n_files + n_rows + accepted,
-        "replayed_behaviours": n_files + n_rows,
+        "traces_validated_against_impl": n_files + n_rows + 2 * n_hosts + accepted,
+        "replayed_behaviours": n_files + n_rows + 2 * n_hosts,
+        "hosts_files": n_hosts,
         "recorded_traces": accepted,
         "recorded_traces_by_kind": by_kind,
         "evaluations": r["evaluations"], "distinct_nontrivial": r["distinct_nontrivial"],
         "rule": "one evaluation = one comparison against a TLC-predicted value: a credentials file loaded through toml::from_str::<Settings> "
-                "(clients), one authenticator probe, one exported configuration parsed back, one start-up row (Settings + TlsHostsSettings + Core::new), "
+                "(clients), one authenticator probe, one exported configuration parsed back (and its pair put to the authenticator), one export request for an unconfigured look-alike name (must be refused), "
+                "one start-up row (Settings + TlsHostsSettings + Core::new), the same row through Settings::builder(), one hosts file through TlsHostsSettings::builder() "
+                "and through Core::reload_tls_hosts_settings on a running Core, "
                 "one wizard / endpoint binary run. Non-trivial = a credentials file in which some value is not a plain one-line basic string equal to its "
                 "source text (escape, literal or multi-line form, inner padding, non-string, missing key), a wizard pair that needs escaping, or a start-up "
                 "row the table refuses; distinct by file text / pair / row.",
@@ -183,7 +193,13 @@ def run(ctx):
         "alphabet: a Z space \" ' \\ # = e-acute (raw and \\u00E9), LF/TAB (escaped and, in multi-line strings, raw), \\U00000061; token strings up to length %d (%d for the user x password product)" % (3 if ctx.thorough else 2, 1),
         "a credentials file with an empty, missing or non-string username/password may be refused as a whole or loaded without that entry; it must never yield a pair that is not written",
         "start-up is observed at toml::from_str (both files) and Core::new, i.e. before sockets are bound" + ("; refusal rows are additionally run against the real binary (sampled 1/97), which must exit unsuccessfully" if ctx.thorough else ""),
-        "quick tier: start-up rows with at most two dimensions off one of two base rows; thorough: the full product",
+        "quick tier: start-up rows with at most two dimensions off one of two base rows; thorough: additionally the full product over the 14 core hosts files",
+        "hosts files are generated by the spec: the duplicate name in every one of the 10 pairs of lists (a list with itself included) and 7 three/four-list placements, "
+        "each in three backgrounds; one unloadable host (5 kinds) in each of the four lists, alone or after a good host; duplicate / unloadable are defined declaratively "
+        "over the host sequence (HostsDup, HostsUnloadable) and the staged model threads the seen-set through the lists like TlsHostsSettings::validate (SeenAll)",
+        "exports: every configured name and, per file, the look-alikes TLC derives from the configured names (upper/lower/first-letter case, trimmed, padded) that are not "
+        "configured; case-twin and prefix-twin user names (Za / za / ZA / Z, own passwords) in every order and subset of size <= 3",
+        "the interactive wizard (several users) cannot be driven without a terminal; only the non-interactive single-user path is run",
         "quick tier does not run the setup_wizard / trusttunnel_endpoint binaries (WizardRoundTrip is then bound only through the spec-written wizard files read by the real loader)",
         "trusted: TLC, the code-point <-> text conversion and the fixture certificate of the harness, the `toml` crate used to parse the exported configuration back",
     ])
